@@ -120,3 +120,20 @@ Theorem C08_monitor_is_property_disconnect : forall s id o still,
   forall c, In c s -> C08.matches c id o = true -> C08.phase c = 1 -> ~ In (C08.num c) still.
 Proof. exact A.disc_ok_spec. Qed.
 Print Assumptions C08_monitor_is_property_disconnect.
+
+(* Two requests issued back to back (the second before the connections cancelled by the first
+   have unregistered): every registered connection that either request names is stopped, and
+   the monitor on such a pair says so of the observation. *)
+Theorem C08_back_to_back_stops : forall s id o1 o2 c,
+  In c s -> C08.matches2 c id o1 o2 = true -> C08.phase c = 1 ->
+  C08.inrange s o1 = true -> C08.inrange s o2 = true ->
+  In (C08.mkC (C08.num c) (C08.cid c) 2 true false) (fst (C08.exec s (C08.ODisc2 id o1 o2))) /\
+  snd (C08.exec s (C08.ODisc2 id o1 o2)) = 10 + 2 * C08.found s id o1 + C08.found s id o2.
+Proof. exact A.back_to_back_stops. Qed.
+Print Assumptions C08_back_to_back_stops.
+
+Theorem C08_monitor_is_property_back_to_back : forall s id o1 o2 still,
+  C08.disc_ok2 s id o1 o2 still = true <->
+  forall c, In c s -> C08.matches2 c id o1 o2 = true -> C08.phase c = 1 -> ~ In (C08.num c) still.
+Proof. exact A.disc_ok2_spec. Qed.
+Print Assumptions C08_monitor_is_property_back_to_back.
